@@ -5,7 +5,7 @@
    property directly.  Termination of the MODEL is by construction (structural recursion on fuel); that the fuel the
    driver passes suffices is observed on every run (no FUEL outcome), not yet proved.  Proved so far - the tokenizer's
    behaviour on the token classes the top-level loop dispatches on (for every amount of leading horizontal whitespace): *)
-Require Import Bebop.front.Tok Bebop.front.TokInv Bebop.front.LexInv Bebop.front.Parse Bebop.front.ParseInv Bebop.front.FmtInv Bebop.front.MsgInv Bebop.front.GenInv Bebop.front.Items Bebop.front.TyInv Bebop.front.TyMsg Bebop.front.TyItems Bebop.front.TyUnion Bebop.front.TyUnionItem Bebop.front.TyOpcode Bebop.front.TyEnum Bebop.front.TyDep Bebop.front.TyDoc Bebop.front.TyDec Bebop.front.TyImport Bebop.front.TyFDoc Bebop.front.TyFDocM Bebop.front.TyEDoc Bebop.front.TyFDec Bebop.front.TyFEol Bebop.front.Schema.
+Require Import Bebop.front.Tok Bebop.front.TokInv Bebop.front.LexInv Bebop.front.Parse Bebop.front.ParseInv Bebop.front.FmtInv Bebop.front.MsgInv Bebop.front.GenInv Bebop.front.Items Bebop.front.TyInv Bebop.front.TyMsg Bebop.front.TyItems Bebop.front.TyUnion Bebop.front.TyUnionItem Bebop.front.TyOpcode Bebop.front.TyEnum Bebop.front.TyDep Bebop.front.TyDoc Bebop.front.TyDec Bebop.front.TyImport Bebop.front.TyFDoc Bebop.front.TyFDocM Bebop.front.TyEDoc Bebop.front.TyFDec Bebop.front.TyFEol Bebop.front.TyFVar Bebop.front.Schema.
 From Coq Require Import List NArith ZArith.
 Import ListNotations.
 
@@ -189,6 +189,9 @@ Definition C11_schema_statement : Prop :=
                                     o_value := if uns then 0%Z else Z.of_N (xv (snd (snd (snd m))));
                                     o_uvalue := if uns then xv (snd (snd (snd m))) else 0%N;
                                     o_dep := match fst (snd m) with Some _ => true | None => false end |}) ml |}]) /\
+  (* the same documented bodies in a readonly struct and in an enum without a declared base type (members read as uint32) *)
+  (forall nm fl k, structs_of (SFDocRoStruct nm fl k) = [{| s_name := ibytes nm; s_comment := []; s_fields := s_fields (cstruct_of (ibytes nm) (map bcf fl)); s_opcode := 0; s_readonly := true |}]) /\
+  (forall nm ml k, enums_of (SFDocUEnum nm ml k) = [{| e_name := ibytes nm; e_comment := []; e_opts := e_opts (cenum_of (ibytes nm) [] true (map bce ml)); e_simple := s_uint32; e_unsigned := true |}]) /\
   (* a `//` comment AFTER a field, on the field's line, belongs to no definition: the File is that of the struct without it *)
   (forall nm fl k, structs_of (SEolStruct nm fl k) = [tstruct_of (ibytes nm) (map (fun f => btf (fst f)) fl)]) /\
   (* ANY sequence of `//` comment lines and opcode lines before a struct, readonly struct, message (fields possibly
@@ -227,11 +230,11 @@ Proof.
   - intros dl lay tail H1 H2 H3 H4 H5.
     destruct (schema_laws dl lay tail H1 H2 H3 H4 H5) as (y & _ & _ & _ & _ & Hr). exact Hr.
   - repeat match goal with |- _ /\ _ => split end; intros;
-      unfold unions_of, union_of, structs_of, messages_of, enums_of, tstruct_of, tstruct_of_ro, tmessage_of, tenum_of, dmessage_of, dec_cmt, dec_opc, popc, cstruct_of, cmessage_of, cenum_of, estruct_of, efield_of, bef; rewrite ?map_map, ?map_app, ?fold_left_app; try reflexivity.
+      unfold unions_of, union_of, structs_of, messages_of, enums_of, tstruct_of, tstruct_of_ro, tmessage_of, tenum_of, dmessage_of, dec_cmt, dec_opc, popc, cstruct_of, cstruct_of_ro, cuenum_of, cmessage_of, cenum_of, estruct_of, efield_of, bef; rewrite ?map_map, ?map_app, ?fold_left_app; try reflexivity.
     + do 2 f_equal. apply map_ext. intros [x bn fl0|x bn fl0]; reflexivity.
     + unfold cmember_opt, bce, bem. do 2 f_equal. apply map_ext. intros m. cbn [fst snd]. destruct uns; reflexivity.
 Qed.
-(* the hypotheses are met (two imports, an enum, a readonly struct with a map of arrays, a message with nested containers, a union, a message and a struct under opcode lines, an int16 enum, a message with a deprecated field, a struct under two comment lines, a union under comment / opcode / comment / opcode lines, a byte enum under a comment line, an empty struct, a struct with a field under a comment line and two tag lines and a deprecated field, a message with a commented deprecated field, a uint8 enum with a commented member and a deprecated one, a struct under a comment line and an opcode line whose field has its own comment line, a struct with an end-of-line comment after a field;
+(* the hypotheses are met (two imports, an enum, a readonly struct with a map of arrays, a message with nested containers, a union, a message and a struct under opcode lines, an int16 enum, a message with a deprecated field, a struct under two comment lines, a union under comment / opcode / comment / opcode lines, a byte enum under a comment line, an empty struct, a struct with a field under a comment line and two tag lines and a deprecated field, a message with a commented deprecated field, a uint8 enum with a commented member and a deprecated one, a struct under a comment line and an opcode line whose field has its own comment line, a struct with an end-of-line comment after a field, an enum without base type with a commented member, a readonly struct with a deprecated field;
    blank lines), and the conclusion computed *)
 Example C11_schema_witness :
   let E := {| ic := 69%N; itl := [] |} in let R := {| ic := 82%N; itl := [111%N] |} in let M := {| ic := 77%N; itl := [] |} in
@@ -259,26 +262,28 @@ Example C11_schema_witness :
              SFDocEnum {| ic := 72%N; itl := [] |} {| ic := 117%N; itl := [105; 110; 116; 56]%N |} true 8%N
                [([[32; 101]%N; [32; 102]%N], (None, (A, one))); ([], (Some [120]%N, (B, n200)))] 0;
              SDec [LDoc [100]%N; LOpc (LNum one)] (BFStruct {| ic := 90%N; itl := [] |} [([[32; 122]%N], (None, (LSimple i32 0, x)))]) 0;
-             SEolStruct {| ic := 89%N; itl := [] |} [((LSimple i32 0, x), Some [32; 101]%N); ((LSimple str 0, y), None)] 0] in
+             SEolStruct {| ic := 89%N; itl := [] |} [((LSimple i32 0, x), Some [32; 101]%N); ((LSimple str 0, y), None)] 0;
+             SFDocUEnum {| ic := 75%N; itl := [] |} [([[32; 107]%N], (None, (A, one)))] 0;
+             SFDocRoStruct {| ic := 81%N; itl := [] |} [([], (Some [113]%N, (LSimple i32 0, x)))] 0] in
   let lay := glayout (map xel_of dl) in
   Forall sdefn_ok dl /\ map snd lay = schema_lexemes dl /\ sep_ok lay /\
   (exists s', read_file (render lay []) false = POk (schema_file dl) s') /\
-  map s_readonly (structs (schema_file dl)) = [true; false; false; false; false; false; false] /\ map s_opcode (structs (schema_file dl)) = [0; 200; 0; 0; 0; 1; 0]%N /\
-  map s_comment (structs (schema_file dl)) = [[]; []; [32; 97; 10; 98]; []; []; [100]; []]%N /\
+  map s_readonly (structs (schema_file dl)) = [true; false; false; false; false; false; false; true] /\ map s_opcode (structs (schema_file dl)) = [0; 200; 0; 0; 0; 1; 0; 0]%N /\
+  map s_comment (structs (schema_file dl)) = [[]; []; [32; 97; 10; 98]; []; []; [100]; []; []]%N /\
   map m_opcode (messages (schema_file dl)) = [0; 1145258561; 0; 0]%N /\ imports (schema_file dl) = [[97; 46; 98; 111; 112]; [98]]%N /\
   map (fun u => (un_comment u, un_opcode u)) (unions (schema_file dl)) = [([], 0%N); ([100; 10; 101]%N, 1212630597%N)] /\
-  map e_comment (enums (schema_file dl)) = [[]; []; [102]; []]%N /\
-  map (fun o => (o_comment o, o_dep o, o_depmsg o, o_uvalue o)) (flat_map e_opts (skipn 3 (enums (schema_file dl)))) = [([32; 101; 10; 32; 102]%N, false, [], 1%N); ([], true, [120]%N, 200%N)] /\
+  map e_comment (enums (schema_file dl)) = [[]; []; [102]; []; []]%N /\
+  map (fun o => (o_comment o, o_dep o, o_depmsg o, o_uvalue o)) (flat_map e_opts (skipn 3 (enums (schema_file dl)))) = [([32; 101; 10; 32; 102]%N, false, [], 1%N); ([], true, [120]%N, 200%N); ([32; 107]%N, false, [], 1%N)] /\
   map (fun p => f_dep (snd p)) (flat_map m_fields (messages (schema_file dl))) = [false; false; false; true; false; true; false] /\
   map (fun p => f_comment (snd p)) (flat_map m_fields (messages (schema_file dl))) = [[]; []; []; []; []; [32; 109]; []]%N /\
   map (fun f => f_type f) (flat_map s_fields (structs (schema_file dl)))
-  = [FArray (FArray (FMap (ibytes str) (FArray (FArray (FSimple (ibytes i32)))))); FSimple (ibytes i32); FSimple (ibytes i32); FSimple (ibytes i32); FArray (FSimple (ibytes str)); FSimple (ibytes i32); FSimple (ibytes i32); FSimple (ibytes str)] /\
-  map (fun f => (f_dep f, f_depmsg f)) (flat_map s_fields (structs (schema_file dl))) = [(false, []); (false, []); (false, []); (false, []); (true, [103; 111]%N); (false, []); (false, []); (false, [])] /\
+  = [FArray (FArray (FMap (ibytes str) (FArray (FArray (FSimple (ibytes i32)))))); FSimple (ibytes i32); FSimple (ibytes i32); FSimple (ibytes i32); FArray (FSimple (ibytes str)); FSimple (ibytes i32); FSimple (ibytes i32); FSimple (ibytes str); FSimple (ibytes i32)] /\
+  map (fun f => (f_dep f, f_depmsg f)) (flat_map s_fields (structs (schema_file dl))) = [(false, []); (false, []); (false, []); (false, []); (true, [103; 111]%N); (false, []); (false, []); (false, []); (true, [113]%N)] /\
   map (fun f => (f_comment f, f_tags f)) (flat_map s_fields (structs (schema_file dl)))
   = [([], []); ([], []); ([], []);
      ([32; 100; 10; 91; 116; 97; 103; 40; 106; 115; 111; 110; 58; 34; 105; 100; 34; 41; 93; 10; 91; 116; 97; 103; 40; 111; 41; 93]%N,
       [{| tg_key := [106; 115; 111; 110]%N; tg_value := [105; 100]%N; tg_bool := false |}; {| tg_key := [111]%N; tg_value := []; tg_bool := true |}]);
-     ([], []); ([32; 122]%N, []); ([], []); ([], [])].
+     ([], []); ([32; 122]%N, []); ([], []); ([], []); ([], [])].
 Proof.
   cbv zeta.
   match goal with |- Forall sdefn_ok ?d /\ _ => assert (Hok : Forall sdefn_ok d) end.
